@@ -21,7 +21,9 @@ Inductive fault :=
   | ErrRestat       (* Stat on the opened file fails *)
   | TypeChanged     (* the opened item is no longer a regular file / directory *)
   | ErrNode         (* ToNode fails without a node (nodeFromFileInfo) *)
-  | ErrReaddir      (* Readdirnames fails *)
+  | ErrReaddir      (* Readdirnames fails without returning a name *)
+  | ErrReaddirPartial (* Readdirnames returns a non-empty prefix of the names AND an error (listing breaks
+                         off part-way): dirToNodeAndEntries rejects the whole directory, nothing of it is saved *)
   | ErrRead.        (* reading the file content fails (fileSaver -> future error -> treeSaver errFn) *)
 
 (* directory contents as first-child / next-sibling *)
@@ -41,7 +43,7 @@ Definition save_outcome (k : kind) (f : fault) : outcome :=
                | _ => Saved
                end
     | KDir => match f with
-              | ErrReopen | GoneReopen | ErrNode | TypeChanged | ErrReaddir => Failed
+              | ErrReopen | GoneReopen | ErrNode | TypeChanged | ErrReaddir | ErrReaddirPartial => Failed
               | _ => Saved
               end
     | KSocket => Skipped                           (* "is a socket, ignoring" *)
